@@ -802,6 +802,9 @@ func (r *runner) run() {
 			case <-time.After(r.wdog):
 				// the call goroutine is abandoned; snapshot what we have
 				hang := M{"ev": "ret", "api": s["api"], "hang": true, "err": true, "errClass": "hang"}
+				if e, ok := s["exp"]; ok {
+					hang["exp"] = e // a call that does not return is a failure of the scenario's own property too
+				}
 				r.mt.mu.Lock()
 				r.ev(hang)
 				r.mt.mu.Unlock()
